@@ -60,6 +60,10 @@ const smallPayload = "abcd"
 
 var bigPayload = strings.Repeat("0123456789abcdef", 70000/16)
 
+// hugePayload: beyond 256 KiB and 512 KiB, with an odd remainder (several pieces, should a
+// writer split what it hands on)
+var hugePayload = strings.Repeat("0123456789abcdef", 700001/16+1)[:700001]
+
 var maxCalls = 3
 
 // manyCalls > 0: a fixed long sequence of full writes (wide but shallow scenario)
@@ -83,8 +87,13 @@ func body(withConsumer, withClose bool) func(c *vsched.Ctx) {
 		}
 		sw := vsched.Choose(2, "underlying-has-WriteString")
 		payload := smallPayload
-		if manyCalls == 0 && vsched.Choose(2, "payload-size") == 1 {
-			payload = bigPayload // larger than any internal chunking threshold one might introduce (64 KiB)
+		if manyCalls == 0 {
+			switch vsched.Choose(3, "payload-size") {
+			case 1:
+				payload = bigPayload // larger than a 64 KiB chunking threshold one might introduce
+			case 2:
+				payload = hugePayload
+			}
 		}
 		kinds := make([]int, ncalls) // 0 Write, 1 WriteString
 		script := make([]int, ncalls)
@@ -110,7 +119,11 @@ func body(withConsumer, withClose bool) func(c *vsched.Ctx) {
 			uw = &under{script: script}
 			pw = ioutil.NewProgressWriter(uw)
 		}
-		status := pw.Status()
+		lateStatus := withConsumer && manyCalls == 0 && vsched.Choose(2, "who-calls-Status-first") == 1
+		var status *vsched.Chan[int]
+		if !lateStatus {
+			status = pw.Status()
+		}
 		total := 0
 		var received []int
 		closedSeen := false
@@ -149,6 +162,9 @@ func body(withConsumer, withClose bool) func(c *vsched.Ctx) {
 		})
 		if withConsumer {
 			vsched.GoNamed("consumer", func() {
+				if lateStatus {
+					status = pw.Status() // the consumer's first call, whenever it happens to come
+				}
 				for {
 					v, ok := status.Recv2()
 					if !ok {
